@@ -43,6 +43,16 @@ CLAIMS = {
         "Five genuine unscoped writes (jnp.cumsum, *_p attributes) are recorded in known_findings.json; the apply_monkey_patches leak was repaired (fix commit de6b809).",
         "DESIGN.md §3 C13",
     ),
+    "C19": (
+        "signature-subsumption check of every resolved tracing substitute against inspect.signature of the replaced library callable + reaching-definition 'parameter value is read' lint + bind-key/abstract_eval agreement",
+        "All 288 patch spec sites (MonkeyPatchSpec / jnp_binding_specs, resolved through nested factories, lambdas, class constants and subclasses) are mapped to the wrapper definition "
+        "installed while tracing; every call form the library signature binds (positional index, keyword name, omitted optional, *args/**kwargs) must bind on the wrapper, every wrapper "
+        "parameter's incoming value must reach a read (or be documented as ignored by the library / listed inert), and every keyword passed to <prim>.bind must be a parameter of the plugin's "
+        "abstract_eval. The library side comes from the installed jax/flax/equinox, so the check follows library upgrades.",
+        "Not decided: whether an accepted argument is lowered with the same meaning. 124 call-form gaps and 5 silently ignored arguments are genuine and listed in known_findings.json "
+        "(each confirmed against the real wrappers by triage/c19_confirm.py). Trusted: inspect.signature of third-party callables; Python's argument binding rules as modelled in sa/sigs.py.",
+        "DESIGN.md §3 C19",
+    ),
 }
 
 NOT_APPLICABLE = {
